@@ -687,6 +687,8 @@ struct Ctx<'a> {
     thorough: bool,
     rot_observed: bool,
     walfail_observed: bool,
+    fixed_append: bool,
+    fixed_rotation: bool,
     /// how many more failing handler calls may go through `persist_term_and_vote`'s retry sleeps
     slow_budget: u64,
 }
@@ -745,8 +747,10 @@ impl FailCfg {
 }
 
 /// Candidate finding, pending the coordinator's decision (I/O failures are outside C10's crash-only
-/// quantifier): reported through `observe` while this is false.
-const WALFAIL_IS_VIOLATION: bool = false;
+/// quantifier): reported through `observe`, and the model runs the code as it is (`evf` = stepFail),
+/// unless the harness runs with `--fixed-append` (to be added to areas/C10.json `harness_args` when
+/// /verif/proposed/C10-append-entries-persist-first.diff is applied: the model then runs `evfx` =
+/// stepFailFixed and a lost acknowledged entry is a violation).
 const WALFAIL_CLASS: &str = "tensor_chain.raft.append_leader_entries/unlogged_entry_acknowledged_after_wal_failure";
 
 /// Would this handler call reach `persist_term_and_vote` (three attempts, 100 + 200 ms of sleep when
@@ -965,7 +969,7 @@ fn run_case(cx: &mut Ctx, r: &mut Rng, case_no: u64, max_crashes: usize, script:
                 role_tok(&lv.node),
                 log_tok(&log)
             );
-            let line = if failing { ev.line().replacen("ev ", "evf ", 1) } else { ev.line() };
+            let line = if failing { ev.line().replacen("ev ", if cx.fixed_append { "evfx " } else { "evf " }, 1) } else { ev.line() };
             let mo = cx.m.ask(&line);
             if failing {
                 cx.rep.hit(&format!("fail.{}", ev.tag()));
@@ -1099,7 +1103,7 @@ fn run_case(cx: &mut Ctx, r: &mut Rng, case_no: u64, max_crashes: usize, script:
                     for (kind, detail) in obl.check(term, &voted, &log) {
                         let input = json!({"case": case_no, "phase": phase, "history": history, "cut": n, "file_len": file.len(),
                                    "obligations": obl.tok(), "restarted": imp_node});
-                        if had_fail && kind == "lost_entry" && !WALFAIL_IS_VIOLATION {
+                        if had_fail && kind == "lost_entry" && !cx.fixed_append {
                             // an entry held in memory but never logged was acknowledged after a failed append
                             cx.rep.hit("fail.acked_entry_lost");
                             if !cx.walfail_observed {
@@ -1452,8 +1456,8 @@ fn fail_scripts() -> Vec<(Vec<Ev>, Vec<bool>)> {
 // ---------------------------------------------------------------- size limit / rotation
 
 /// Candidate finding, pending the coordinator's decision: reported through `observe` (not `violation`)
-/// while this is false.
-const ROTATION_IS_VIOLATION: bool = false;
+/// unless the harness runs with `--fixed-rotation` (areas/C10.json `harness_args`, to be added when
+/// /verif/proposed/C10-wal-no-rotation.diff is applied: a node-level loss is then a violation).
 const ROTATION_CLASS: &str = "tensor_chain.raft_wal.rotate/restart_ignores_rotated_segments";
 
 fn hex_or_dash(b: &[u8]) -> String {
@@ -1483,7 +1487,7 @@ fn wal_files_tok(path: &Path) -> String {
 }
 
 fn report_rotation(cx: &mut Ctx, what: &str, input: Value) {
-    if ROTATION_IS_VIOLATION {
+    if cx.fixed_rotation && input["level"] == "RaftNode::with_wal" {
         cx.rep.violation(ROTATION_CLASS, what, input);
     } else if !cx.rot_observed {
         cx.rot_observed = true;
@@ -1670,6 +1674,13 @@ fn run_rot_node(cx: &mut Ctx, r: &mut Rng, case_no: u64) {
     history.push(json!({"files": {"raft.wal": live_len, "raft.wal.1": rotated_len}}));
     cx.rep.hit(if rotated_len > 0 { "rot.node.rotated" } else { "rot.node.not_rotated" });
     drop(lv);
+    if rotated_len == 0 {
+        // the node's WAL does not rotate (what /verif/proposed/C10-wal-no-rotation.diff makes of it): the
+        // record went behind the harness' filler frames, where replay cannot see it by construction of
+        // the filler — nothing to judge here
+        cx.rep.case("rot.node", Some(&format!("{t}|{c1}|{k}|{ents:?}|{extra:?}")));
+        return;
+    }
     // restart 2
     let p2 = dir.path().join("probe2.wal");
     std::fs::copy(&path, &p2).unwrap();
@@ -1729,20 +1740,25 @@ fn main() {
         "snapshot.rejected_stale", "snapshot.rejected_invalid", "snapshot.script.gap", "snapshot.script.suffix_agrees",
         "snapshot.script.suffix_conflicts", "cut.mid_snapshot_install", "cut.mid_snapshot_install.some_entries_durable",
         "chain.crash_mid_install",
-        "rot.append.rotates", "rot.append.fits", "rot.case.never_rotated", "rot.node.rotated",
+        "rot.append.rotates", "rot.append.fits", "rot.case.never_rotated",
+        if args.extra.iter().any(|a| a == "--fixed-rotation") { "rot.node.not_rotated" } else { "rot.node.rotated" },
         "fail.ev.term_record_path", "fail.ev.log_or_none_path", "fail.append_entries", "fail.propose",
         "fail.install_snapshot", "fail.elect", "fail.request_vote", "fail.vote_response",
-        "fail.memory_log_changed_without_wal", "reply.walfail",
+        "reply.walfail",
     ]
     .iter()
     .map(|s| s.to_string())
     .collect();
+    if !args.extra.iter().any(|a| a == "--fixed-append") {
+        rep.expected_branches.push("fail.memory_log_changed_without_wal".to_string());
+        rep.expected_branches.push("fail.acked_entry_lost".to_string());
+    }
     let t_all_end = std::time::Instant::now();
     let mut m = Model::spawn(&args.driver);
     let root = Rng::new(args.seed);
     let thorough = args.thorough;
     {
-        let mut cx = Ctx { m: &mut m, rep: &mut rep, seen: HashSet::new(), thorough, rot_observed: false, walfail_observed: false, slow_budget: if thorough { 40 } else { 2 } };
+        let mut cx = Ctx { m: &mut m, rep: &mut rep, seen: HashSet::new(), thorough, rot_observed: false, walfail_observed: false, fixed_append: args.extra.iter().any(|a| a == "--fixed-append"), fixed_rotation: args.extra.iter().any(|a| a == "--fixed-rotation"), slow_budget: if thorough { 40 } else { 2 } };
         let t_all = std::time::Instant::now();
         let mut r = root.fork("raw");
         let n_raw = if thorough { 1500 } else { 150 };
